@@ -1,7 +1,7 @@
 (* C09 -- the function the framework extracts: path-deriving commands (Model/C09_paths.v), the loaders' construction sites
-   (Model/C09_load.v), then the commands of Model/C09_enc.v. *)
+   (Model/C09_load.v), the docstring dispatch (Model/C09_parse.v), then the commands of Model/C09_enc.v. *)
 From Coq Require Import List String.
-From Verif Require Import Lib.Sexp Model.C09_json Gen.C09_schema Model.C09_enc Model.C09_paths Model.C09_load.
+From Verif Require Import Lib.Sexp Model.C09_json Gen.C09_schema Model.C09_enc Model.C09_paths Model.C09_load Model.C09_parse.
 Import ListNotations.
 
 Definition run_C09_top (s : sexp) : sexp :=
@@ -9,6 +9,9 @@ Definition run_C09_top (s : sexp) : sexp :=
   | Some r => r
   | None => match run_load s with
             | Some r => r
-            | None => run_C09 s
+            | None => match run_parse s with
+                      | Some r => r
+                      | None => run_C09 s
+                      end
             end
   end.
